@@ -65,7 +65,8 @@ def styleOf : String → Except String Style
   | "relative" => pure .relative | "linear" => pure .linear | s => throw s!"bad style {s}"
 
 def mfOf : String → Except String (List Int → Option Int)
-  | "sum" => pure mfSum | "max" => pure mfMax | "raise" => pure mfRaise | s => throw s!"bad merge_fn {s}"
+  | "sum" => pure mfSum | "max" => pure mfMax | "raise" => pure mfRaise
+  | "count" => pure mfCount | "mix" => pure mfMix | s => throw s!"bad merge_fn {s}"
 
 /-- `comb j`: the top coordinate combined with `j+1` already merged ranks below it, for the
     merged ranks `k … k+L` with shapes `S` -/
@@ -161,20 +162,28 @@ def runStage (st : Json) : Except String StageOut := do
     let ar := arities (r + (k + 1)) t
     if !(wfB (r + (k + 1)) t && aritiesOk ar) then return oomOut "ill-formed input"
     let g := guide.take (k + 1)
+    -- `assert sorted(old_rank_ids) == sorted(rank_ids)` compares a `str` with a `list` when the
+    -- tensor has both plain and flattened rank ids: `TypeError`
+    let mixed := match (field st "ids_mixed") with | .ok (Json.bool b) => b | _ => false
     let m := swizzle r k g t
     let exp := swizzleSpec guide (content dflt _ t)
     let tags := ["swizzle", s!"swizlen{sl}"] ++ (if swizLen guide = 0 then ["identityPerm"] else []) ++ treeTags dflt _ t
-    pure (judge (r + (k + 1)) (some m) dflt (some exp) obs tags)
+    let tags := tags ++ (if mixed then ["mixedRankIds"] else [])
+    pure (judge (r + (k + 1)) (if mixed then none else some m) dflt (some exp) obs tags)
   | "swap" =>
     let k ← fNat st "k"
     if D < k + 2 then return oomOut "depth"
     let r := D - 2 - k
     let t ← parseTreeC (r + 2 + k) tin
     let ar := arities (r + 2 + k) t
-    if !(wfB _ t && aritiesOk ar && intAt ar k && intAt ar (k + 1)) then return oomOut "ill-formed input"
-    let m := swapT (· ++ ·) List.reverse hdC tlC dflt r k t
+    if !(wfB _ t && aritiesOk ar) then return oomOut "ill-formed input"
+    -- the flattened pair `(c1, c0)` is reversed to `(c0, c1)` and unflattened into `c0`, `c1`:
+    -- on component lists this needs the number of components of the two ranks (1 = integer)
+    let a1 := (arityAt ar k).getD 1
+    let a0 := (arityAt ar (k + 1)).getD 1
+    let m := swapT (· ++ ·) (fun c => c.drop a1 ++ c.take a1) (fun c => c.take a0) (fun c => c.drop a0) dflt r k t
     let exp := swizzleSpec (swapGuide k) (content dflt _ t)
-    let tags := ["swap", s!"k{k}"] ++ (if allEmptyAt dflt (r + 1) k t then ["guardAllEmpty"] else []) ++
+    let tags := ["swap", s!"k{k}"] ++ (if a1 != 1 || a0 != 1 then ["tupleCoords"] else []) ++ (if allEmptyAt dflt (r + 1) k t then ["guardAllEmpty"] else []) ++
       (if m.isNone then ["modelErr"] else []) ++ treeTags dflt _ t
     pure (judge (r + 2 + k) m dflt (some exp) obs tags)
   | "flatten" | "merge" =>
